@@ -911,6 +911,76 @@ class GraderNegPow(Family):
         return res
 
 
+# ----------------------------------------------------------------------------- scalars that are COMPUTED (function results)
+
+import math as _math
+COMPUTED = [
+    ('sin(x)', lambda x: _math.sin(x)), ('cos(x)+1', lambda x: _math.cos(x) + 1), ('exp(x)', lambda x: _math.exp(x)),
+    ('sqrt(x)', lambda x: _math.sqrt(x)), ('-sin(x)', lambda x: -_math.sin(x)), ('sin(x)^2', lambda x: _math.sin(x) ** 2),
+    ('norm(u)', lambda x: 5.0), ('abs(u)', lambda x: 5.0), ('det(Q)', lambda x: -2.0), ('trace(Q)', lambda x: 5.0),
+    ('u*u', lambda x: 25.0), ('sin(0)', lambda x: 0.0), ('sin(x)-sin(x)', lambda x: 0.0), ('norm(u)-5', lambda x: 0.0),
+    ('sin(x)+cos(x)', lambda x: _math.sin(x) + _math.cos(x)), ('x', lambda x: x), ('2*x', lambda x: 2 * x),
+]
+COMPUTED_ARRAYS = [spec_arr((2,), 'ra'), spec_arr((3,), 'rf'), spec_arr((2, 2), 'ra'), spec_arr((2, 3), 'ca'), spec_arr((2, 2, 2), 'ra')]
+COMPUTED_FORMS = ['(%(s)s)+%(a)s', '(%(s)s)-%(a)s', '(%(s)s)/%(a)s', '(%(s)s)^%(a)s', '%(a)s+(%(s)s)', '%(a)s-(%(s)s)', '(%(s)s)*%(a)s',
+                  '%(a)s*(%(s)s)', '%(a)s/(%(s)s)', '(%(s)s)+1+%(a)s']
+COMPUTED_BARE = {'sin(x)', 'exp(x)', 'sqrt(x)', 'norm(u)', 'abs(u)', 'det(Q)', 'trace(Q)', 'sin(0)', 'x'}     # also without parentheses
+
+
+class ComputedScalars(Family):
+    name = 'computed_scalars_with_arrays'
+    timeout = 20.0
+    rule = ('formula strings combining a scalar that is the RESULT of a function call or of a dot product (%s; x = 0.75, u = [3,4], '
+            'Q = [[1,2],[3,4]]) with an array variable A of 5 shapes in the forms %s: same rules as for literal scalars (non-zero '
+            'scalar +/- array, scalar / array, scalar ^ array are errors; scaling is entry-wise; a computed zero may be added)'
+            % ([c[0] for c in COMPUTED], COMPUTED_FORMS))
+
+    def setup(self, tier):
+        Lib.load()
+        from mitxgraders.helpers.calc.mathfuncs import DEFAULT_FUNCTIONS, ARRAY_ONLY_FUNCTIONS
+        self.F = dict(DEFAULT_FUNCTIONS)
+        self.F.update(ARRAY_ONLY_FUNCTIONS)
+
+    def cases(self, tier):
+        for ci in range(len(COMPUTED)):
+            for ai in range(len(COMPUTED_ARRAYS)):
+                for fi in range(len(COMPUTED_FORMS)):
+                    yield (ci, ai, fi)
+                    if COMPUTED[ci][0] in COMPUTED_BARE and fi < len(COMPUTED_FORMS) - 1:
+                        yield (ci, ai, fi, 'bare')
+
+    def text(self, case):
+        ci, ai, fi = case[:3]
+        t = COMPUTED_FORMS[fi] % {'s': COMPUTED[ci][0], 'a': 'A'}
+        if len(case) > 3:
+            t = t.replace('(' + COMPUTED[ci][0] + ')', COMPUTED[ci][0])
+        return t
+
+    def describe(self, case):
+        ci, ai, fi = case[:3]
+        return {'formula': self.text(case), 'A': decode(COMPUTED_ARRAYS[ai]),
+                'x': 0.75, 'u': [3, 4], 'Q': [[1, 2], [3, 4]]}
+
+    def check(self, case):
+        ci, ai, fi = case[:3]
+        text = self.text(case)
+        a = decode(COMPUTED_ARRAYS[ai])
+        sval = COMPUTED[ci][1](0.75)
+        form = COMPUTED_FORMS[fi]
+        op = [c for c in form.replace('%(s)s', '').replace('%(a)s', '').replace('(', '').replace(')', '') if c in '+-*/^'][0]
+        scalar_left = form.index('%(s)s') < form.index('%(a)s')
+        if fi == len(COMPUTED_FORMS) - 1:
+            exp = expected_of(lambda: R.binop('+', sval + 1, a, True))
+        elif scalar_left:
+            exp = expected_of(lambda: R.binop(op, sval, a, True))
+        else:
+            exp = expected_of(lambda: R.binop(op, a, sval, True))
+        V = {'x': 0.75, 'u': Lib.MathArray([3.0, 4.0]), 'Q': Lib.MathArray([[1.0, 2.0], [3.0, 4.0]]), 'A': to_lib(a)}
+        got = attempt(lambda: Lib.evaluator(text, V, self.F, {}, max_array_dim=3)[0])
+        site = 'computed:' + site_of(op, sval if scalar_left else a, a if scalar_left else sval)
+        return judge(exp, got, site, True)
+
+
 # ----------------------------------------------------------------------------- registry
 
 def families(tier):
@@ -937,6 +1007,7 @@ def families(tier):
                {'quick': [('var', ['ra', 'ca']), ('lit', ['ra'])],
                 'thorough': [('var', ['ra', 'rf', 'ca']), ('lit', ['ra', 'rf', 'ca'])]}),
         PowerSyntax(),
+        ComputedScalars(),
         InverseSweep('inverse_all_2x2_int', 2, [-2, -1, 0, 1, 2], [-1, -2], ('quick', 'thorough')),
         InverseSweep('inverse_all_3x3_012', 3, [0, 1, 2], [-1], ('quick', 'thorough')),
         InverseSweep('inverse_all_2x2_gauss', 2, [0, 1, (0, 1), (1, 1), (1, -1)], [-1, -2], ('quick', 'thorough')),
